@@ -316,6 +316,16 @@ fn parse_v_model_directive(
         value = attr_value.clone();
     }
 
+    // the generated listener assigns to the bound expression
+    if !is_assignment_target(&value) {
+        HANDLER.with(|handler| {
+            handler.span_err(
+                jsx_attr.span,
+                "The expression bound by `v-model` must be an identifier or a member expression.",
+            );
+        });
+    }
+
     Directive::VModel(VModelDirective {
         argument: argument.clone(),
         transformed_argument: if !is_component
@@ -366,6 +376,18 @@ fn transform_modifiers(modifiers: BTreeSet<Atom>, quote_prop: bool) -> Option<Ex
                 })
                 .collect(),
         }))
+    }
+}
+
+fn is_assignment_target(expr: &Expr) -> bool {
+    match expr {
+        Expr::Ident(..) | Expr::Member(..) | Expr::SuperProp(..) => true,
+        Expr::Paren(ParenExpr { expr, .. })
+        | Expr::TsNonNull(TsNonNullExpr { expr, .. })
+        | Expr::TsAs(TsAsExpr { expr, .. })
+        | Expr::TsSatisfies(TsSatisfiesExpr { expr, .. })
+        | Expr::TsTypeAssertion(TsTypeAssertion { expr, .. }) => is_assignment_target(expr),
+        _ => false,
     }
 }
 
